@@ -1106,3 +1106,183 @@ pub fn write_parts<W: io::Write>(
     writer.write_all(b"\n")?;
     Ok(())
 }
+
+// ---------------------------------------------------------------------------
+// Verification hooks (compiled only with `--cfg markschl_seq_io_verif`).
+// They expose the private state and the private transition functions of the
+// reader so that external harnesses can run them from an arbitrary state.
+// No logic is duplicated: every wrapper calls the real function.
+// ---------------------------------------------------------------------------
+#[cfg(markschl_seq_io_verif)]
+#[doc(hidden)]
+pub struct VerifBufPos(BufferPosition);
+
+#[cfg(markschl_seq_io_verif)]
+#[doc(hidden)]
+impl VerifBufPos {
+    /// (pos.0, pos.1, seq, sep, qual)
+    pub fn new(pos0: usize, pos1: usize, seq: usize, sep: usize, qual: usize) -> Self {
+        VerifBufPos(BufferPosition {
+            pos: (pos0, pos1),
+            seq,
+            sep,
+            qual,
+        })
+    }
+    pub fn record<'a>(&'a self, buffer: &'a [u8]) -> RefRecord<'a> {
+        RefRecord {
+            buffer,
+            buf_pos: &self.0,
+        }
+    }
+    pub fn parts(&self) -> (usize, usize, usize, usize, usize) {
+        (self.0.pos.0, self.0.pos.1, self.0.seq, self.0.sep, self.0.qual)
+    }
+}
+
+#[cfg(markschl_seq_io_verif)]
+#[doc(hidden)]
+impl RecordSet {
+    pub fn verif_from_parts(buffer: Vec<u8>, positions: Vec<VerifBufPos>) -> Self {
+        RecordSet {
+            buffer,
+            buf_positions: positions.into_iter().map(|p| p.0).collect(),
+        }
+    }
+    pub fn verif_buffer(&self) -> &[u8] {
+        &self.buffer
+    }
+    pub fn verif_pos(&self, i: usize) -> (usize, usize, usize, usize, usize) {
+        let p = &self.buf_positions[i];
+        (p.pos.0, p.pos.1, p.seq, p.sep, p.qual)
+    }
+    pub fn verif_positions_capacity(&self) -> usize {
+        self.buf_positions.capacity()
+    }
+}
+
+#[cfg(markschl_seq_io_verif)]
+#[doc(hidden)]
+impl<R, P> Reader<R, P>
+where
+    R: io::Read,
+    P: BufPolicy,
+{
+    /// state: 0 New, 1 Parsing, 2 Positioned, 3 Finished;
+    /// incomplete_pos: 0 None, 1 Head, 2 Seq, 3 Sep, 4 Qual
+    #[allow(clippy::too_many_arguments)]
+    pub fn verif_from_parts(
+        buf_reader: buffer_redux::BufReader<R>,
+        buf_policy: P,
+        buf_pos: VerifBufPos,
+        incomplete_pos: u8,
+        line: u64,
+        byte: u64,
+        state: u8,
+    ) -> Self {
+        Reader {
+            buf_reader,
+            buf_pos: buf_pos.0,
+            incomplete_pos: Self::verif_record_pos(incomplete_pos),
+            position: Position::new(line, byte),
+            state: match state {
+                0 => State::New,
+                1 => State::Parsing,
+                2 => State::Positioned,
+                _ => State::Finished,
+            },
+            buf_policy,
+        }
+    }
+    fn verif_record_pos(p: u8) -> Option<RecordPos> {
+        match p {
+            0 => None,
+            1 => Some(RecordPos::Head),
+            2 => Some(RecordPos::Seq),
+            3 => Some(RecordPos::Sep),
+            _ => Some(RecordPos::Qual),
+        }
+    }
+    fn verif_record_pos_code(p: Option<RecordPos>) -> u8 {
+        match p {
+            None => 0,
+            Some(RecordPos::Head) => 1,
+            Some(RecordPos::Seq) => 2,
+            Some(RecordPos::Sep) => 3,
+            Some(RecordPos::Qual) => 4,
+        }
+    }
+    pub fn verif_state(&self) -> u8 {
+        match self.state {
+            State::New => 0,
+            State::Parsing => 1,
+            State::Positioned => 2,
+            State::Finished => 3,
+        }
+    }
+    pub fn verif_incomplete_pos(&self) -> u8 {
+        Self::verif_record_pos_code(self.incomplete_pos)
+    }
+    /// (pos.0, pos.1, seq, sep, qual)
+    pub fn verif_buf_pos(&self) -> (usize, usize, usize, usize, usize) {
+        let p = &self.buf_pos;
+        (p.pos.0, p.pos.1, p.seq, p.sep, p.qual)
+    }
+    pub fn verif_position(&self) -> (u64, u64) {
+        (self.position.line, self.position.byte)
+    }
+    pub fn verif_buf_reader(&self) -> &buffer_redux::BufReader<R> {
+        &self.buf_reader
+    }
+    pub fn verif_buf_reader_mut(&mut self) -> &mut buffer_redux::BufReader<R> {
+        &mut self.buf_reader
+    }
+    pub fn verif_current_record(&self) -> RefRecord {
+        RefRecord {
+            buffer: self.get_buf(),
+            buf_pos: &self.buf_pos,
+        }
+    }
+    pub fn verif_init(&mut self) -> Result<bool, Error> {
+        self.init()
+    }
+    pub fn verif_increment_record(&mut self) {
+        self.increment_record()
+    }
+    pub fn verif_search(&mut self) -> Result<bool, Error> {
+        self.search()
+    }
+    pub fn verif_find_line(&self, search_start: usize) -> Option<usize> {
+        self.find_line(search_start)
+    }
+    pub fn verif_resume_incomplete_search(
+        &mut self,
+        incomplete_pos: u8,
+        make_room: bool,
+    ) -> Result<bool, Error> {
+        let p = Self::verif_record_pos(incomplete_pos).unwrap();
+        self.resume_incomplete_search(p, make_room)
+    }
+    pub fn verif_check_end(&mut self, pos: u8) -> Result<bool, Error> {
+        let p = Self::verif_record_pos(pos).unwrap();
+        self.check_end(p)
+    }
+    pub fn verif_search_incomplete(&mut self, pos: u8) -> Result<Option<u8>, Error> {
+        let p = Self::verif_record_pos(pos).unwrap();
+        self.search_incomplete(p)
+            .map(|r| r.map(|p| Self::verif_record_pos_code(Some(p))))
+    }
+    pub fn verif_grow(&mut self) -> Result<(), Error> {
+        self.grow()
+    }
+    pub fn verif_make_room(&mut self, incomplete_pos: u8) {
+        let p = Self::verif_record_pos(incomplete_pos).unwrap();
+        self.make_room(p)
+    }
+    pub fn verif_validate(&mut self) -> Result<(), Error> {
+        self.validate()
+    }
+    pub fn verif_get_error_pos(&self, line_offset: u64, parse_id: bool) -> ErrorPosition {
+        self.get_error_pos(line_offset, parse_id)
+    }
+}
